@@ -38,7 +38,7 @@ WINDOW_NAMES = {"send", "write", "close", "stop", "run", "connection_lost", "_co
                 # where the pump drains a sleeping node's queue and where controller threads append to it
                 "handle_smartsleep", "_route_message", "is_sensor", "_connect_once"}
 WINDOW_FILES = ("transport.py", "task.py", "threaded.py", "gateway_tcp.py", "gateway_serial.py", "handler.py", "__init__.py")
-EVENTS_SERIAL = ["read_error", "disconnect", "stop", "read_error_reconnect", "both_errors", "none"]
+EVENTS_SERIAL = ["read_error", "disconnect", "stop", "read_error_reconnect", "both_errors", "write_error_stop", "none"]
 EVENTS_TCP = EVENTS_SERIAL + ["peer_reset", "peer_eof"]
 
 
@@ -142,6 +142,25 @@ def run(case):
                 event = cfg["event"]
                 if rec:
                     probes["teardown_while_queued"] = 1
+                if event == "write_error_stop":
+                    # the pump's next write fails (it closes the link and asks for a reconnect from its error handler) and
+                    # at that very moment the application stops the gateway from another thread
+                    conn0.fail_write(_real_serial.SerialException("write failed") if cfg["flavour"] == "serial" else BrokenPipeError(32, "Broken pipe"))
+                    failing = kernel.SimEvent()
+
+                    def write_fails(conn, _data):
+                        if conn is conn0 and conn.write_exc is not None and not failing.is_set():
+                            probes["write_error_with_concurrent_stop"] = 1
+                            sim.pct_arm(horizon=40)
+                            failing.set()
+
+                    world.device.write_hook = write_fails
+                    if failing.wait(2.0):
+                        gateway.stop()
+                    else:
+                        conn0.write_exc = None
+                        probes["write_error_stop_not_fired"] = 1
+                    return
                 if event in ("read_error", "read_error_reconnect", "both_errors"):
                     exc = _real_serial.SerialException("device gone") if cfg["flavour"] == "serial" else OSError(5, "Input/output error")
                     if event == "both_errors":
@@ -284,7 +303,7 @@ def run(case):
                 if text.startswith("0;255;3;0;2;"):
                     continue
                 if not (text.endswith("\n") and text.count("\n") == 1):
-                    if cfg["event"] in ("read_error", "read_error_reconnect", "both_errors", "peer_reset", "peer_eof") and conn_id == conn0.conn_id:
+                    if cfg["event"] in ("read_error", "read_error_reconnect", "both_errors", "write_error_stop", "peer_reset", "peer_eof") and conn_id == conn0.conn_id:
                         # the link itself failed under the write: a torn command on the dead link is what a
                         # write error legitimately leaves behind
                         probes["partial_write_on_failed_link"] = 1
